@@ -102,6 +102,13 @@ def frame_obligations(root, classes=None):
         out.append(res(f"C01/MRO/{K}", "MRO", "refuted" if missing else "proved", "pvc.frame (MRO resolution + set inclusion)",
                        f"resolved to {cs.cls}.__cache_state__ with fields {sorted(keyfields)}; uncovered base state: {missing}",
                        time.time() - t1))
+        # ---- IDENTITY(K): the memo keys contain `self`; Cached defines equality as identity plus equal cache state.  A class
+        #      that overrides __eq__ / __hash__ can make two different objects share memoised values (kind MRO: a
+        #      per-class fact about how the key is resolved)
+        over = [f"{B}.{nm}" for B in prog.mro(K) if B != "Cached" and B in prog.classes
+                for nm in ("__eq__", "__hash__") if nm in prog.classes[B].methods]
+        out.append(res(f"C01/MRO/{K}:identity", "MRO", "refuted" if over else "proved", "pvc.frame (MRO resolution)",
+                       f"__eq__/__hash__ resolved to Cached (identity + cache state); overridden by: {over}"))
         # ---- FRAME(m,K)
         for mi in prog.all_methods(K):
             if not mi.cached:
